@@ -341,17 +341,18 @@ theorem replica_blockgrow_torn_header (C : Crypto) (hC : TreeStore.HashWF C) (hT
   obtain ⟨c1, e, j0, hk⟩ := BlockGrow.blockgrow_ok C hC hT bs m n c d held h hm0 hmn hn us hup sig hsl hver i hi
   exact ⟨c1, e, j0, hk.shape.2, torn_header_of_ok C bs m n c c1 d held _ _ e j0 h hk⟩
 
-/-- the next block + upgrade step, torn: entry / data writes recover to before, the flush's header write to after, page and
-    node writes of the flush show the state after -/
-theorem replica_nextblock_torn (C : Crypto) (hC : TreeStore.HashWF C) (hT : TreeStore.TreeWF C) (bs : Array Bytes) (m n : Nat) (c : Core) (d : Disk)
+/-- a block of the new part + upgrade, torn: entry / data writes recover to before, the flush's header write to after
+    (`torn_commit_of_ok`, `torn_header_of_ok` apply to the `StepOK` step), page and node writes of the flush show the state
+    after -/
+theorem replica_newblock_torn (C : Crypto) (hC : TreeStore.HashWF C) (hT : TreeStore.TreeWF C) (bs : Array Bytes) (m n : Nat) (c : Core) (d : Disk)
     (held : Nat → Bool) (h : ReplicaReopen.RP C bs m c d held) (hm0 : 0 < m) (hmn : m < n) (hn : n ≤ bs.size) (us : List (Nat × Nat))
     (hup : Growth.Up m 0 (RefTree.rootsStack n).reverse us) (sig : Bytes) (hsl : sig.length = 64)
-    (hver : C.verify c.publicKey (Growth.signableAt C bs n c.tree.fork) sig = true)
-    (a b : List (Nat × Nat)) (k : Nat) (hsplit : us = a ++ (k, m / 2 ^ k) :: b) :
+    (hver : C.verify c.publicKey (Growth.signableAt C bs n c.tree.fork) sig = true) (i : Nat) (hmi : m ≤ i) (hi : i < n)
+    (a b : List (Nat × Nat)) (k : Nat) (hsplit : us = a ++ (k, i / 2 ^ k) :: b) :
     ∃ (c1 : Core) (e : Oplog.Entry) (j0 : List SOp),
-      ReplicaReopen.StepOK C bs m n c c1 d held (fun j => held j || j == m) (c.verifyAndApply C d (BlockGrowGen.honestNextBlock C bs c.tree.fork m n a b k sig)) e j0
-      ∧ TornFlushShows C bs n (fun j => held j || j == m) c c1 d (c.verifyAndApply C d (BlockGrowGen.honestNextBlock C bs c.tree.fork m n a b k sig)) e j0 := by
-  obtain ⟨c1, e, j0, hk⟩ := BlockGrowGen.nextblock_ok C hC hT bs m n c d held h hm0 hmn hn us hup sig hsl hver a b k hsplit
+      ReplicaReopen.StepOK C bs m n c c1 d held (fun j => held j || j == i) (c.verifyAndApply C d (BlockGrowGen.honestNewBlock C bs c.tree.fork i m n a b k sig)) e j0
+      ∧ TornFlushShows C bs n (fun j => held j || j == i) c c1 d (c.verifyAndApply C d (BlockGrowGen.honestNewBlock C bs c.tree.fork i m n a b k sig)) e j0 := by
+  obtain ⟨c1, e, j0, hk⟩ := BlockGrowGen.newblock_ok C hC hT bs m n c d held h hm0 hmn hn us hup sig hsl hver i hmi hi a b k hsplit
   exact ⟨c1, e, j0, hk, torn_flush_of_ok C bs m n c c1 d held _ _ e j0 h hk⟩
 
 end HC.C07
